@@ -248,7 +248,7 @@ class Gen:
         # extras (extra="allow"): unknown members of every JSON type
         for extra in ({"x-extra": 1}, {"unknownMember": {"deep": [None, "v"]}, "z": None}, {"_meta": {"a": 1}}, {"extra_str": "123"},
                       # unknown members whose names collide with the implementation's own vocabulary
-                      {"__typename": "T"}, {"self": 1, "cls": 2}, {"model_dump": "x", "model_fields": [1]}, {"json": {}, "dict": []},
+                      {"__typename": "T"}, {"self": 1, "cls": 2}, {"__proto__": {"x": 1}, "__init__": 1, "__class__": "c", "__mcp_self__": 0}, {"model_dump": "x", "model_fields": [1]}, {"json": {}, "dict": []},
                       {"meta": {"py": "name"}}, {"schema_": {"py": "name"}}):
             o = self.full(cls)
             for k, v in extra.items():
